@@ -25,7 +25,10 @@ RULE = ('ops match/vlookup/hlookup/lookup/index called through their excel_helpe
         '(row, col) from -1 to size+1 and omitted col. A case is non-trivial when the searched vector has at least two '
         'cells and the lookup value is not an error; distinct = distinct case dict.')
 ASSUMPTIONS = [
-    'text is ASCII (str.lower() is modelled on A-Z only) and holds no newline; text spelling an error code is not sent',
+    'text is drawn from U+0001..U+00FF (line breaks, tabs, control characters, Latin-1 letters included); case-'
+    'insensitivity is modelled as Python str.lower() on that range (A-Z, À-Þ move 32 up; ß and every non-letter are '
+    'unchanged; checked against Python for all 256 code points); text beyond Latin-1 and text spelling an error code are '
+    'not sent; cases holding ß are ungoverned (the property does not decide its case pairing)',
     'numbers are dyadic rationals sent exactly; NaN/inf are not generated',
     'match_type / index arguments given as text are modelled only as "not a number" (#VALUE!); non-integral indices '
     'are not generated (the code raises TypeError on table[1.5])',
@@ -46,6 +49,10 @@ EXHAUSTIVE = False
 
 NUMS = [-1, 0, 1, 1.5, 2, 3]
 TEXTS = ['', 'a', 'B', 'b', 'ab', 'Ab', 'abc', 'a?', 'b*', 'a.']
+# ordinary cell text that regex engines treat specially: line breaks (Alt+Enter cells), tabs, control characters,
+# Latin-1 letters with case
+SPECIAL_TEXTS = ['a\nb', 'A\nB\nc', '\n', 'a\rb', 'a\tb', 'a\r\nb', 'a\x01b', 'ab\n', 'É', 'é', 'Éa\nb', 'ß', 'aßb']
+SPECIAL_PATTERNS = ['a?b', 'a*b', '*b', 'a*', '?\n?', 'a\n*', '*\n', '???', 'É*', 'é?\nb', '*ß*', 'a??b', '~a*\nb']
 BOOLS = [False, True]
 ERRS = ['#N/A', '#DIV/0!']
 PATTERNS = ['a*', '?b', '*', '?', 'A?C', '*b*', '??', 'a.*', 'a+*', '(*', '[ab]?', 'a~?', '~*', 'b~*', 'a~', '~a?']
@@ -204,8 +211,39 @@ def shaped_vector(rng, n, shape, pool):
 
 def cases(tier, rng):
     thorough = tier == 'thorough'
-    full = NUMS + TEXTS + BOOLS + [None] + ERRS
-    lookups = NUMS + TEXTS + BOOLS + [None] + PATTERNS + [2.5, 'c', 'AB']
+    full = NUMS + TEXTS + ['a\nb', '\n', 'a\tb', 'É', 'é'] + BOOLS + [None] + ERRS
+    lookups = NUMS + TEXTS + BOOLS + [None] + PATTERNS + [2.5, 'c', 'AB'] + SPECIAL_PATTERNS[:6] + SPECIAL_TEXTS[:3]
+    # --- 0a. ==-equal but differently typed values and vectors, consecutively in one process (1 == True == 1.0 and
+    #         0 == False in Python: any memo / dict / set keyed on the raw values confuses them)
+    twins = [([0, 1], [False, True]), ([1, 0], [True, False]), ([1, True], [True, 1]), ([0, 'a', 1], [False, 'a', True]),
+             ([1, 1, 0], [True, 1, False]), ([None, 0, 1, None], [None, False, True, None])]
+    for va, vb in twins:
+        for mt in (0, 1, -1):
+            for orient in ('col', 'row'):
+                for vec in (va, vb, va):
+                    for v, fl in ((1, False), (True, False), (1, True), (0, False), (False, False), (0, True), (True, False),
+                                  (1, False)):
+                        yield mcase(v, vec, mt, orient, classify(vec), fl=fl)
+        ta, tb = [[x, 'r%d' % i] for i, x in enumerate(va)], [[x, 'r%d' % i] for i, x in enumerate(vb)]
+        for rl in (False, True):
+            for t in (ta, tb, ta):
+                for v in (1, True, 0, False, 1):
+                    yield tcase('vlookup', v, t, 2, rl, classify([r[0] for r in t]))
+                    yield tcase('hlookup', v, transpose(t), 2, rl, classify([r[0] for r in t]))
+                    yield lcase(v, t, None, classify([r[0] for r in t]))
+    # --- 0b. text with line breaks, tabs, control characters and Latin-1 letters, in cells and in patterns: every
+    #         special/plain pattern against every special text, alone and behind a non-matching cell
+    for pat in SPECIAL_PATTERNS + PATTERNS + SPECIAL_TEXTS:
+        for txt in SPECIAL_TEXTS + ['ab', 'a', 'AB']:
+            for vec in ([txt], ['zz', txt], [txt.upper(), 1, txt]):
+                yield mcase(pat, vec, 0, 'col', classify(vec))
+            yield tcase('vlookup', pat, [['zz', 1], [txt, 2]], 2, False, 'unsorted')
+            yield tcase('hlookup', pat, [['zz', txt], [1, 2]], 2, False, 'unsorted')
+    sp_sorted = sorted(SPECIAL_TEXTS + ['a', 'b'], key=okey)
+    for v in SPECIAL_TEXTS + ['a', 'b', 'a\n', 'A\nB']:
+        yield mcase(v, sp_sorted, 1, 'col', classify(sp_sorted))
+        yield mcase(v, sp_sorted[::-1], -1, 'row', classify(sp_sorted[::-1]))
+        yield mcase(v, sp_sorted, 0, 'col', classify(sp_sorted), via='formula')
     # --- 1. small scope exhaustive: every vector up to length 3 (4) x lookups x match types
     count = 0
     for n in range(1, 5 if thorough else 4):
@@ -216,7 +254,7 @@ def cases(tier, rng):
                 for mt in (-1, 0, 1):
                     yield mcase(v, vec, mt, orient, classify(vec))
     # --- 2. random vectors up to length 8, four shapes, both orientations, every lookup value
-    for i in range(9000 if thorough else 400):
+    for i in range(8000 if thorough else 330):
         n = rng.randint(1, 8)
         shape = ('unsorted', 'asc', 'desc', 'interior')[i % 4]
         vec = shaped_vector(rng, n, shape, full)
@@ -410,6 +448,13 @@ def _plain_lookup(v):
     return tclass(v) in 'nsb'
 
 
+def _case_undecided(c):
+    """text holding a letter whose case pairing the property does not decide (`ß`: no single-character capital);
+    the model follows Python's str.lower() there, ungoverned"""
+    toks = [c.get('v', '')] + [x for r in c['arr'] for x in r]
+    return any(t.startswith('s:') and '223' in t[2:].split(',') for t in toks)
+
+
 def _governed_match(v, vec, mt, shape):
     """MATCH(v, vec, mt) is decided by the statement: exact mode always; the approximate modes on data sorted the
     right way and only when the statement leaves one answer ("a position holding the largest value": with
@@ -447,7 +492,7 @@ def governed(c):
     if op == 'index':
         return True      # integer arguments
     v = py(c['v'])
-    if not _plain_lookup(v):
+    if not _plain_lookup(v) or _case_undecided(c):
         return False
     vec = _searched(c)
     shape = classify(vec)
